@@ -61,6 +61,12 @@ PROPS["C11"] = dict(units=["fieldx_fq", "fieldx_fr", "fieldx_fp", "wrap64_fq", "
     explanation="byte/limb/bigint conversions refine the integer value: to_bytes(_le) is the little-endian form of val, from_bytes_checked accepts exactly the integers below p, from_bigint is Some iff below p, from_le_limbs/from_raw_bytes reduce mod p, From<u8..u128,bool>",
     not_decided=["from_le_bytes_mod_order / from_be_bytes_mod_order (iterator chain chunks/map/rev/fold)", "FromStr / Display", "serialize_with_flags / deserialize_with_flags generic over Read/Write/Flags"])
 
+PROPS["C17"] = dict(units=["consts"], assumptions=[M_PRIME + " (the certified factors of p-1 are prime)", "the reference moduli are read from the cargo registry source of ark-bls12-377 / ark-ed-on-bls12-377 0.4.0"],
+    explanation="one lemma per published constant, generated from the literals in /repo each run and evaluated exactly by Verus by(compute_only): half modulus, bit size, two-adicity, trace, half trace, generator (order test over the certified prime factors of p-1), root of unity (= g^t, exact order 2^s), QNR^t, 2^(8N) mod p, u32/u64 spellings, curve a/d/zeta/Montgomery A,B, generator (on curve, T=XY, [r]G = identity element, = decode(8)), sqrt-table constants, min_curve copies",
+    technique="contract-based deductive verification: generated ground lemmas over constants extracted from /repo, discharged by Verus by(compute_only)")
+for _p in ("C04", "C05", "C06", "C07", "C12"):
+    PROPS[_p]["units"] = list(PROPS[_p]["units"]) + ["consts"]
+
 NOT_APPLICABLE = {
     "C15": "circuit shape / pinned Groth16 keys: the subject is the hidden ark_relations constraint store and binary key files; no pre/postcondition on a /repo function can state matrix equality across runs or SNARK verification (DESIGN.md C15)",
 }
